@@ -52,6 +52,7 @@ fn emit_case(otlp: &emit_otlp::Otlp, c: &Case, vid: i64) {
         "missing" => {}
         "i64" => props.push(("metric_value", emit::Value::from(42i64))),
         "f64" => props.push(("metric_value", emit::Value::from(1.5f64))),
+        "u64big" => props.push(("metric_value", emit::Value::from(u64::MAX))),
         "seqi" => props.push(("metric_value", emit::Value::capture_sval(&seqi))),
         "seqf" => props.push(("metric_value", emit::Value::capture_sval(&seqf))),
         "emptySeq" => props.push(("metric_value", emit::Value::capture_sval(&empty))),
